@@ -131,7 +131,7 @@ CONFIG = {
     "DNS": cfg("tins/dns.h", "Tins::DNS", [("header_", "dns_header")], inner=False, files=["src/dns.cpp", "include/tins/dns.h"]),
     "BootP": cfg("tins/bootp.h", "Tins::BootP", [("bootp_", "bootp_header")], inner=False, files=["src/bootp.cpp", "include/tins/bootp.h"],
                  exprs={"sname": ptr_acc("sname", 64), "file": ptr_acc("file", 128),
-                        "chaddr": ("do_get(o, &T::chaddr)", "o.chaddr(Conv<Tins::HWAddress<16> >::from(v))"),
+                        "chaddr": ("to_val(o.chaddr())", "o.chaddr(Conv<Tins::HWAddress<16> >::from(v))"),
                         # the 6-byte overload of the template setter, read back through the first six bytes of the field
                         "chaddr_mac": ("to_val(Tins::HWAddress<6>(o.chaddr().begin()))", "o.chaddr(Conv<Tins::HWAddress<6> >::from(v))")},
                  arg={"sname": "bytes 64", "file": "bytes 128", "chaddr": "bytes 16", "chaddr_mac": "bytes 6"},
@@ -845,13 +845,6 @@ def lean_tables(classes, rows, tables, pr):
          "   custom: accessors the translator does not recognise (hand-written models in Fields/Custom.lean);",
          "   args: parameter domain of every public setter (deduced by the C++ compiler in the probe). -/",
          "namespace Tins.Fields.Gen", ""]
-    L.append("/-- sizeof of the header image of every class -/")
-    L.append("def imageLen : List (String × Nat) := [")
-    items = []
-    for cname in sorted(tables):
-        tot = sum(pr["size"][(cname, i)][1] for i in range(len(tables[cname]["conf"]["image"])))
-        items.append(f'  ("{cname}", {tot})')
-    L.append(",\n".join(items) + "]\n")
     L.append("namespace M")
     memtab = []
     for cname in sorted(tables):
@@ -896,8 +889,6 @@ def lean_tables(classes, rows, tables, pr):
                 simple.append((cname, r["fld"], mem, a[3], path))
             else:
                 custom.append((cname, r["fld"], a[1]))
-    L.append("def simple : List SimpleAcc := [")
-    L.append(",\n".join(f'  ⟨"{c}", "{f}", ⟨{m[0]}, {m[1]}, {m[2]}⟩, .{cv}⟩   /- {p} -/' for c, f, m, cv, p in simple) + "]\n")
     L.append("/-- accessors with a body the translator does not recognise -/")
     L.append("def custom : List (String × String) := [")
     L.append(",\n".join(f'  ("{c}", "{f}")   /- {why.replace("-/", "- /")[:100]} -/' for c, f, why in custom) + "]\n")
@@ -915,8 +906,29 @@ def lean_tables(classes, rows, tables, pr):
                 args.append((cname, r["fld"], min(int(info[1]), r["width"]), "none"))
             else:
                 args.append((cname, r["fld"], int(info[1]), "none"))
-    L.append("def args : List ArgInfo := [")
-    L.append(",\n".join(f'  ⟨"{c}", "{f}", {d}, {s}⟩' for c, f, d, s in args) + "]\n")
+    L.append("/-- per class: sizeof of the header image, recognised one-statement accessors, setter parameter domains -/")
+    L.append("def byClass : List ClassGen := [")
+    blocks = []
+    for cname in sorted(tables):
+        tot = sum(pr["size"][(cname, i)][1] for i in range(len(tables[cname]["conf"]["image"])))
+        sm = ",\n".join(f'      ⟨"{c}", "{f}", ⟨{m[0]}, {m[1]}, {m[2]}⟩, .{cv}⟩   /- {p} -/' for c, f, m, cv, p in simple if c == cname)
+        ar = ",\n".join(f'      ⟨"{c}", "{f}", {d}, {sm_}⟩' for c, f, d, sm_ in args if c == cname)
+        blocks.append(f'  ⟨"{cname}", {tot},\n    [\n{sm}],\n    [\n{ar}]⟩')
+    L.append(",\n".join(blocks) + "]\n")
+    L.append("def imageLen : List (String × Nat) := byClass.map (fun g => (g.name, g.imageLen))")
+    L.append("def simple : List SimpleAcc := byClass.flatMap (·.simple)")
+    L.append("def args : List ArgInfo := byClass.flatMap (·.args)\n")
+    # the class blocks of Spec.rows, in table order (every class must be one contiguous block)
+    segs = []
+    for r in rows:
+        if segs and segs[-1][0] == r["cls"]:
+            segs[-1][1] += 1
+        else:
+            segs.append([r["cls"], 1])
+    if len({c for c, _ in segs}) != len(segs):
+        raise RuntimeError("Spec.rows: the rows of a class are not contiguous")
+    L.append("/-- the class blocks of `Spec.rows` (class, number of rows), in table order -/")
+    L.append("def segments : List (String × Nat) := [" + ", ".join(f'("{c}", {n})' for c, n in segs) + "]\n")
     L.append("end Tins.Fields.Gen\n")
     return "\n".join(L), simple, custom, args
 
